@@ -1,15 +1,15 @@
 CONSTANTS
   Setup = "hot"
-  NW = 2
+  NW = 1
   SyncCap = 1
   MaxTicks = 2
   MaxJPolls = 1
   MaxWakes = 1
-  JCmds = {}
+  JCmds = {"hdrop"}
   HCmds = {"tick", "clear", "execdrop"}
   Spurious = TRUE
   Strict = TRUE
-  Fix = {"D10a", "D10b"}
-SPECIFICATION Spec
+  Fix = {"D10a", "D10b", "D11", "D12"}
+SPECIFICATION LiveSpec
 INVARIANTS NoErr HomeOnly ExactlyOnce NoWakerLeak RcMatches NoLostJoinWake PendingBound ScntOk
-
+PROPERTIES WaitTerminates
